@@ -104,6 +104,9 @@ var c05Families = []c05family{
 	{`[a-z]+[a-z]+[0-9]`, "a", ""}, {`[a-z]+[0-9]+`, "a", ""}, {`^(\w+)\s(\w+)$`, "a", ""}, {`(\w+)@(\w+)\.(\w+)`, "a@", ""}, {`[a-z]+connection[a-z]+`, "connectio", ""},
 	{`(?m)^/.*\.php`, "/.ph", ""}, {`.*\.(txt|log|md)`, ".tx", ""}, {`\d{1,3}\.\d{1,3}\.\d{1,3}\.\d{1,3}`, "1.2.", ""}, {`(foo|bar|baz)qux`, "fooqu", ""}, {`x*`, "y", ""},
 	{`(?s)a.+b`, "a", ""}, {`"[^"]*"`, "\"a", ""}, {`<.*?>`, "<a", ""}, {`(\d+)-(\d+)-(\d+)`, "1-", ""}, {`^.*foo.*bar$`, "fooba", ""},
+	// every suffix / inner / digit candidate is a near miss whose verification scans back (or forward) over the whole run
+	{`[0-9][a-z.]+\.txt`, ".txt", ""}, {`[0-9][a-z.]+\.(txt|log|dat)`, ".txt", ""}, {`[0-9][a-z0-9]*X`, "1", ""}, {`\bab[a-z]*X`, "ab ", ""},
+	{`[a-z.]+connect[a-z.]+X`, "connect", ""}, {`[0-9]+[a-z]*\.com`, "1a.co", ""}, {`(?i)[0-9][a-z]*error`, "erro", ""},
 }
 
 func c05Worker(maxN, from int) int {
@@ -168,7 +171,7 @@ func c05Worker(maxN, from int) int {
 				h := []byte(strings.Repeat(fam.unit, n/len(fam.unit)+1)[:n] + fam.tail)
 				done := make(chan uint64, 1)
 				go func() {
-					done <- measure(func() {
+					call := func() {
 						switch api {
 						case "Match":
 							re.Match(h)
@@ -177,7 +180,18 @@ func c05Worker(maxN, from int) int {
 						default:
 							re.FindSubmatchIndex(h)
 						}
-					})
+					}
+					// the work of ONE call = the minimum over up to three identical calls: one-off work that is not a function of
+					// the input (a sync.Pool miss after a GC rebuilding the per-search state, lazy initialisation) shows up in one of
+					// them only; repetitions are skipped when a call is slow (then such noise is negligible anyway)
+					t0 := time.Now()
+					best := measure(call)
+					for rep := 0; rep < 2 && time.Since(t0) < 700*time.Millisecond; rep++ {
+						if v := measure(call); v < best {
+							best = v
+						}
+					}
+					done <- best
 				}()
 				select {
 				case work := <-done:
@@ -196,7 +210,7 @@ func c05Worker(maxN, from int) int {
 }
 
 func checkC05(r *Report, known []Finding) {
-	r.Rule = "work = sum of executed basic blocks of library code (coverage counters, atomic mode, cleared around ONE call) for Match / FindIndex / FindSubmatchIndex on adversarial families " +
+	r.Rule = "work = sum of executed basic blocks of library code (coverage counters, atomic mode, cleared around ONE call; minimum over up to three identical calls, which removes one-off initialisation work) for Match / FindIndex / FindSubmatchIndex on adversarial families " +
 		"(near-miss repetitions per strategy: candidate-dense inputs, overlapping classes, repeated suffixes, digit runs, classic ReDoS shapes) at n = 512 … 8192 (32768 thorough); the property's own shape " +
 		"check: doubling n must at most ~double the work (ratio <= 2.6 at the two largest doublings); compile work for pattern-size doublings must stay polynomial (ratio <= 9); " +
 		"non-trivial = every measured call; distinct by (pattern, input family, api, n)"
